@@ -138,6 +138,30 @@ Theorem C15_own_contents_setitem_scalar : forall st i ix v, reachable st -> is_l
 Proof. exact set_idx_scalar_cells. Qed.
 Print Assumptions C15_own_contents_setitem_scalar.
 
+(* seq_i[idx] = seq_j.  FULL STATEMENT (any j) is not proved: when j is on the SAME buffer as i the
+   element-by-element copy reads rows it has just written (s[::-1] = s), and an element-wise shape
+   mismatch raises after a partial assignment; for those cases only C15_wellformed is proved.
+   Proved here: j on another buffer and no element-wise ValueError (rows_assigned / compat mirror
+   NumPy's one-row broadcasting): the value of every element of every object afterwards. *)
+Theorem C15_own_contents_setitem_seq_partial : forall st i ix j ps, reachable st ->
+  is_live st i = true -> is_live st j = true ->
+  sbuf (getseq st j) <> sbuf (getseq st i) ->
+  positions (length (offs (getseq st i))) ix = Ok ps ->
+  let dst := combine (pick 0 (offs (getseq st i)) ps) (pick 0 (lens (getseq st i)) ps) in
+  let src := pairs (getseq st j) in
+  let R := rows_of st (sbuf (getseq st j)) in
+  length ps = length (offs (getseq st j)) ->
+  sum (pick 0 (lens (getseq st i)) ps) = sum (lens (getseq st j)) ->
+  compat dst src R ->
+  let st' := fst (step st (OSetIdx i ix (VSeq j))) in
+  snd (step st (OSetIdx i ix (VSeq j))) = ROk /\ seqs st' = seqs st /\
+  forall x q, x < length (seqs st) -> q < length (offs (getseq st x)) ->
+    V st' x q = if sbuf (getseq st x) =? sbuf (getseq st i)
+                then match last_src (cell st x q) dst src R with Some v => v | None => V st x q end
+                else V st x q.
+Proof. exact set_idx_seq_cells. Qed.
+Print Assumptions C15_own_contents_setitem_seq_partial.
+
 (* in-place operator: value of every element of every object afterwards *)
 Theorem C15_own_contents_inplace : forall st i f dt, reachable st -> is_live st i = true ->
   offs (getseq st i) <> [] ->
